@@ -5,7 +5,7 @@ cd /verif
 for d in seeded/*/; do
   sid=$(basename $d)
   checks=$(python3 -c "import json;print(' '.join(json.load(open('$d/meta.json'))['checks']))")
-  if ! git -C /repo apply $d/patch.diff 2>/dev/null; then echo "$sid APPLY-FAILED"; continue; fi
+  if ! git -C /repo apply /verif/$d/patch.diff 2>/dev/null; then echo "$sid APPLY-FAILED"; continue; fi
   for id in $checks; do
     out=$(./check $id quick 2>&1); rc=$?
     echo "$sid $id exit=$rc violations=$(echo "$out" | grep -c '^VIOLATION')"
